@@ -1,11 +1,11 @@
 """C17 configuration for bin/check and bin/mkmanifest.py."""
 CFG = {
-   "ready": False,
+   "ready": True,
    "level_text": "Proof (container/glue layer) + exhaustive fault enumeration (codec layers): Coq theorem C17_prefix_all_or_nothing shows, for every byte string the repaired container parser accepts as a still and every proper prefix, that the parser fails or returns the identical result (same features, same frame payload and alpha bytes), hence GetFeatures, DecodeConfig and Decode (for every codec) fail or agree with the complete file; C17_prefix_classified shows that on the pinned parser the only deviation is success with an empty frame list; the parser model is tied to internal/container on every run by extraction + differential execution on every prefix of every generated file. The codecs' behaviour on truncated bitstreams is a parameter of the model and is decided by exhaustive enumeration on the real code: every prefix length of every generated still file through Decode/DecodeConfig/GetFeatures.",
    "level_note": "Trusted: Coq kernel, extraction (ExtrOcamlBasic), OCaml glue, Go harness, translator. The pixel codecs (VP8 bool decoder, VP8L bit reader, ALPH) are not modelled: 'a truncated bitstream is rejected or decodes identically' is evaluated exhaustively per generated file (all cut points), not proved. The model is tied to the Go code by sampled correspondence, not by a proof about the Go text.",
    "technique": "Rocq proof of prefix-stability of the container parser model (induction over the chunk loops, both code variants) + exhaustive prefix enumeration on the implementation; extraction-based correspondence with container.NewParser",
    "notes": [
-     "theorems: C17_prefix_all_or_nothing, C17_get_features_prefix, C17_decode_config_prefix, C17_decode_prefix (repaired parser, all inputs, all codecs); C17_prefix_classified (both variants); C17_features_prefix_refuted / C17_config_prefix_refuted (pinned parser, vm_compute witnesses replayed by the harness)",
+     "theorems: C17_parser_total (no panic / no fuel exhaustion on any byte string), C17_prefix_all_or_nothing, C17_get_features_prefix, C17_decode_config_prefix, C17_decode_prefix (repaired parser, all inputs, all codecs); C17_prefix_classified (both variants); C17_features_prefix_refuted / C17_config_prefix_refuted (pinned parser, vm_compute witnesses replayed by the harness)",
      "'still' is stated as: the parser returned from parseSingleImage/parseExtSingleImage (Kind = KStill), i.e. a top-level image chunk was found; animated files (a cut between ANMF chunks yields fewer frames) are outside the property",
    ],
    "partial": [
